@@ -388,7 +388,7 @@ def check_scenario(broken, stats):
 
 
 def evaluate_machine(k, n, tier, seed, stats):
-    per = (1500 if tier == "quick" else 100000) // n + 1
+    per = int((1500 if tier == "quick" else 100000) * common.SCALE) // n + 1
     Machine, found = build_machine(stats, seed * 1000 + k, per, 30)
     try:
         run_state_machine_as_test(hypothesis.seed(seed * 1000 + k)(Machine), settings=Machine.TestCase.settings)
